@@ -296,17 +296,21 @@ class TagExtractor(PDFDevice):
         self._write("</page>\n")
         self.pageno += 1
 
-    def begin_tag(self, tag: PSLiteral, props: Optional["PDFStackT"] = None) -> None:
+    def _start_tag(
+        self, tag: PSLiteral, props: Optional["PDFStackT"], end: str
+    ) -> str:
         s = ""
         if isinstance(props, dict):
             s = "".join(
                 [
-                    f' {utils.enc(k)}="{utils.make_compat_str(v)}"'
+                    f' {utils.enc(k)}="{utils.enc(utils.make_compat_str(v))}"'
                     for (k, v) in sorted(props.items())
                 ],
             )
-        out_s = f"<{utils.enc(cast(str, tag.name))}{s}>"
-        self._write(out_s)
+        return f"<{utils.enc(cast(str, tag.name))}{s}{end}"
+
+    def begin_tag(self, tag: PSLiteral, props: Optional["PDFStackT"] = None) -> None:
+        self._write(self._start_tag(tag, props, ">"))
         self._stack.append(tag)
 
     def end_tag(self) -> None:
@@ -316,8 +320,8 @@ class TagExtractor(PDFDevice):
         self._write(out_s)
 
     def do_tag(self, tag: PSLiteral, props: Optional["PDFStackT"] = None) -> None:
-        self.begin_tag(tag, props)
-        self._stack.pop(-1)
+        # a marked-content point has no content: an empty element
+        self._write(self._start_tag(tag, props, "/>"))
 
     def _write(self, s: str) -> None:
         self.outfp.write(s.encode(self.codec))
